@@ -872,3 +872,26 @@ def expanded_everywhere(ctx) -> set:
         cache = {fq for fq in inl if fq in ctx.prog.functions and not ctx.cg.callers(ctx.prog.functions[fq])}
         ctx.__dict__['_expanded_everywhere'] = cache
     return cache
+
+
+
+def post_init_views(ctx) -> Dict[str, FuncInfo]:
+    """Indentizer.__post_init__ specialised for indentor SPACES / TAB x bullet list given or not (labels
+    'SPACES-bullets-True' ...): straight-line code when the specialiser can follow the helpers the method uses."""
+    from ..specialise import residual, TRUTHY
+    cached = getattr(ctx, '_post_init_views', None)
+    if cached is not None:
+        return cached
+    prog = ctx.prog
+    ind = prog.cls('text_gen', 'Indentizer')
+    post = ind.methods.get('__post_init__') if ind else None
+    out: Dict[str, FuncInfo] = {}
+    if post is not None:
+        for indentor in ('SPACES', 'TAB'):
+            for bullets in (True, False):
+                asm = {'self.indentor': ast.parse(f'Indentor.{indentor}', mode='eval').body,
+                       'self.bullet_list': TRUTHY if bullets else None}
+                out[f'{indentor}-bullets-{bullets}'] = prog.add_synthetic(post, residual(prog, post, {}, assume=asm),
+                                                                            f'{indentor}-bullets-{bullets}')
+    ctx._post_init_views = out
+    return out
